@@ -173,6 +173,40 @@ def clear_replay(tally, case, mk_layer, step, xs, T, fresh_out):
                 return
 
 
+def serial_md_shard(skind, T):
+    """multi-dimensional populations: Serial(LinearDense((1,2) -> (2,1)), LIF((2,1))) equals, element for element, the flat layer
+    on the same histories, its output has the neuron group's batched shape, and clear() restores it"""
+    tally = Tally()
+    hs, xs = inputs_for(T)
+    B = len(hs)
+    case = {"layer": "Serial[multi-dimensional]", "inshape": [1, 2], "outshape": [2, 1], "synapse": skind, "T": T}
+
+    def mk():
+        c = LinearDense((1, 2), (2, 1), DT, synapse=syn(skind), batch_size=B, weight_init=lambda w: W1.clone(), delay=2.0,
+                        delay_init=lambda d: torch.tensor([[0.0, 1.0], [2.0, 1.0]]))
+        return Serial(c, LIF((2, 1), DT, rest_v=0.0, reset_v=-0.5, thresh_v=1.0, refrac_t=2.0, time_constant=2.0, batch_size=B))
+
+    try:
+        layer, flat = mk(), Serial(dense(B, W1, skind, 2.0), lif(B))
+        for t in range(T):
+            tally.add("steps")
+            out = layer(xs[t].reshape(B, 1, 2).clone())
+            ref = flat(xs[t].clone())
+            if tuple(out.shape) != (B, 2, 1) or tuple(out.shape) != tuple(layer.neuron.batchedshape):
+                tally.violation("serial-md:output-shape", {**case, "step": t}, f"output shape {tuple(out.shape)}, neuron batched shape {tuple(layer.neuron.batchedshape)}")
+                return tally
+            if not torch.equal(out.reshape(B, 2), ref):
+                tally.violation("serial-md:output", {**case, "step": t}, "output differs from the flat layer on the same inputs")
+                return tally
+    except Exception as ex:
+        tally.violation(f"exception:serial-md:{type(ex).__name__}", case, repr(ex))
+        return tally
+    clear_replay(tally, case, mk, lambda L, x: L(x.reshape(B, 1, 2).clone()), xs, T, None)
+    tally.mark("nontrivial", ("serial-md", skind))
+    tally.add("histories", B)
+    return tally
+
+
 def biclique_shard(combine, transforms, T):
     tally = Tally()
     hs, xs = inputs_for(T)
@@ -420,6 +454,8 @@ def run(rep):
     for combine in ("sum", "mean", "prod", "min", "max", "custom"):
         for tr in (False, True):
             jobs.append((biclique_shard, (combine, tr, T)))
+    for skind in ("delta", "exp"):
+        jobs.append((serial_md_shard, (skind, T)))
     for nc, nn_ in ((2, 1), (1, 2), (3, 1), (3, 2), (1, 1)):
         for skind in ("exp", "delta-delayed"):
             jobs.append((biclique_unequal_shard, (nc, nn_, skind, T)))
@@ -452,7 +488,7 @@ def run(rep):
         "rule": "every boolean input history of length T (as batch) x every layer topology / combine mode / transform choice x every clear "
                 "position; non-trivial = distinct topologies",
     }
-    return rep.finish(cov, floors={"transitions": 150, "distinct_nontrivial": 60})
+    return rep.finish(cov, floors={"transitions": 150, "distinct_nontrivial": 62})
 
 
 def replay(case):
